@@ -107,5 +107,23 @@ pub fn run(ctx: &Ctx) {
         let call = Call { rate_exp: gen_rate(&mut rng), items, script: vec![] };
         emit(&mut out, &Case { cfg, calls: vec![call], sorted: true });
     }
+    // the property holds for every formatter STATE: sequences of calls on one formatter (accepted, rejected, split
+    // entries whose global record is omitted, sampled, I/O-failed), every successful call checked
+    let nseq = if ctx.tier_thorough { 5000 } else { 500 };
+    for _ in 0..nseq {
+        let cfg = gen_config(&mut rng);
+        let len = rng.range(2, 5);
+        let mut calls: Vec<Call> = (0..len).map(|_| crate::c14::catalogue(&mut rng, &cfg, false)).collect();
+        if rng.chance(1, 2) {
+            // a split entry all of whose metrics carry per-metric dimensions: its global record is omitted
+            let mut items = vec![Item::Timestamp(4_000_000), Item::Config(CItem::Split)];
+            for d in cfg.default_dims.concat() { if !items.iter().any(|i| matches!(i, Item::Value(n, _) if *n == d)) { items.push(Item::Value(d, VCall::Str("s".into()))); } }
+            items.push(Item::Value("OnlySplit".into(), VCall::Metric(vec![Obs::U(1)], UnitS::None, vec![("dk".into(), "dv".into())], Flag::None)));
+            let at = rng.below(calls.len() as u64) as usize;
+            calls.insert(at, Call { rate_exp: None, items, script: vec![] });
+        }
+        out.count("call_sequence");
+        emit(&mut out, &Case { cfg, calls, sorted: true });
+    }
     out.finish("EMF: (config, multiplicity, entry) from a structured generator (names/strings biased to quotes, backslashes, controls, multi-byte UTF-8; observation lists with NaN/inf/zero-occurrence placements; units; per-metric dimensions; flags; entry configs; 1-3 namespaces and dimension sets; directives; log group) plus every placement pattern of 6 observation classes up to the tier's length x {unsampled, sampled}. Non-trivial = an entry with a metric of >= 2 observations or a string needing escapes / non-ASCII; distinct by hash of the case");
 }
